@@ -115,7 +115,7 @@ func verifC10Docker(c *drv.Ctx) {
 		fmt.Sprintf("F = %v (quick: Content-Length only; thorough: Content-Length, chunked, delimited by close); no other restriction of the cross product in either tier. ", frames) +
 		"Oracle (own strict JSON reader): record required iff the answer to /info is 2xx, not a fault, and its body (none for 204) has an object as first JSON value, and /_ping did not stall (a stalled ping uses up the " +
 		"probe's single timeout: either); object + garbage and objmistyped = either; otherwise forbidden; record proto/host = probed scheme / tcp://ip:port, info reproduces the served object, a failed or " +
-		"stalled /version or a failed /_ping changes nothing; duration <= timeout + 2 s, hard cap 10 s = hang. A failing script is re-run once (decision failures with a 3 s timeout) and reported only if it " +
+		"stalled /version or a failed /_ping changes nothing; duration <= timeout + 2 s, hard cap 10 s = hang. Plus every script in which one request stalls, run with an 8 s timeout and the scan context cancelled after 300 ms: Scan must return within 3 s. A failing script is re-run once (decision failures with a 3 s timeout) and reported only if it " +
 		"fails again. non-trivial = every script (each is a distinct server behaviour)"
 	c10Bodies["pingok"] = struct{ data, class string }{`OK`, "invalid"}
 	c10Bodies["boom"] = struct{ data, class string }{`boom`, "invalid"}
@@ -130,6 +130,22 @@ func verifC10Docker(c *drv.Ctx) {
 					if c.Mine(idx) {
 						cases = append(cases, &c10case{Scanner: "docker", Idx: idx, Scheme: scheme, Prim: prim, Sec: map[string]string{"ping": ping, "version": ver}})
 					}
+				}
+			}
+		}
+	}
+	// cancellation while a request is stalled: the probe must end promptly (Ctrl-C during an application scan)
+	for _, scheme := range []string{"http", "https"} {
+		for _, prim := range c10primaries(frames, scheme == "https") {
+			stalled := strings.HasPrefix(prim.Fault, "stall") || prim.Fault == "tls-stall" || prim.Body == "endless"
+			good := prim.Fault == "" && prim.Status == 200 && prim.Body == "obj0" && prim.CT == "json"
+			for _, sec := range [][2]string{{"ok", "ok"}, {"stall", "ok"}, {"ok", "stall"}} {
+				if !(stalled && sec[0] == "ok" && sec[1] == "ok") && !(good && (sec[0] == "stall" || sec[1] == "stall")) {
+					continue
+				}
+				idx++
+				if c.Mine(idx) {
+					cases = append(cases, &c10case{Scanner: "docker", Idx: idx, Scheme: scheme, Prim: prim, Sec: map[string]string{"ping": sec[0], "version": sec[1]}, Cancel: true})
 				}
 			}
 		}
